@@ -52,31 +52,41 @@ theorem viewFetch_get (db : Db) (os : List OutPoint) : ∀ (c : Cache) (v : View
         · exact (hox h1).elim
         · exact (hxs h1).elim
 
-theorem step_inv (s : State) (op : Op) (h : Inv s) (hok : OpOk s.chainRev op) :
-    ∃ s', step s op = some s' ∧ Inv s' ∧ s'.chainRev = chainStep s.chainRev op := by
+theorem step_inv (s : State) (op : Op) (h : Inv s) (hok : OpOk s.chainRev op) (ht : TT s) :
+    ∃ s', step s op = some s' ∧ Inv s' ∧ s'.chainRev = chainStep s.chainRev op ∧ TT s' := by
   cases op with
-  | restart aborts fulls => exact restart_op_inv s aborts fulls h
-  | connect b bip30 full => exact connect_inv s b true bip30 full h hok.1 hok.2.1 hok.2.2
-  | attach b full => exact connect_inv s b false false full h hok.1 hok.2.1 hok.2.2
+  | restart aborts fulls =>
+    obtain ⟨s', h1, hi, hc, htt⟩ := restart_op_inv s aborts fulls h
+    exact ⟨s', h1, hi, hc, by unfold TT at ht ⊢; rw [htt, hc, ht]⟩
+  | connect b bip30 full =>
+    obtain ⟨s', h1, hi, hc, htt⟩ := connect_inv s b true bip30 full h hok.1 hok.2.1 hok.2.2
+    exact ⟨s', h1, hi, hc, by unfold TT at ht ⊢; rw [htt, hc, totalTxns_cons, ht]⟩
+  | attach b full =>
+    obtain ⟨s', h1, hi, hc, htt⟩ := connect_inv s b false false full h hok.1 hok.2.1 hok.2.2
+    exact ⟨s', h1, hi, hc, by unfold TT at ht ⊢; rw [htt, hc, totalTxns_cons, ht]⟩
   | detach n =>
-    obtain ⟨s', v', hd, hi, hc, _⟩ := detachMany_inv n s emptyView h hok (vagree_empty _)
-    exact ⟨s', by simp [step, hd], hi, hc⟩
+    obtain ⟨s', v', hd, hi, hc, _, htt⟩ := detachMany_inv n s emptyView h hok (vagree_empty _) ht
+    exact ⟨s', by simp [step, hd], hi, hc, htt⟩
   | flush mode full due =>
     have := flushAt_inv s (tipId s.chainRev) mode full due h rfl
-    exact ⟨_, rfl, this.1, this.2.1⟩
-  | fetch o => exact ⟨_, rfl, fetch_inv s o h, rfl⟩
+    refine ⟨_, rfl, this.1, this.2.1, ?_⟩
+    unfold TT at ht ⊢
+    show (flushAt s (tipId s.chainRev) mode full due).totalTxns =
+      totalTxns (flushAt s (tipId s.chainRev) mode full due).chainRev.reverse
+    rw [flushAt_totalTxns, this.2.1, ht]
+  | fetch o => exact ⟨_, rfl, fetch_inv s o h, rfl, ht⟩
 
-theorem run_inv (ops : List Op) : ∀ (s : State), Inv s → HistOk s.chainRev ops →
-    ∃ s', run s ops = some s' ∧ Inv s' ∧ s'.chainRev = ops.foldl chainStep s.chainRev := by
+theorem run_inv (ops : List Op) : ∀ (s : State), Inv s → HistOk s.chainRev ops → TT s →
+    ∃ s', run s ops = some s' ∧ Inv s' ∧ s'.chainRev = ops.foldl chainStep s.chainRev ∧ TT s' := by
   induction ops with
-  | nil => intro s h _; exact ⟨s, rfl, h, rfl⟩
+  | nil => intro s h _ ht; exact ⟨s, rfl, h, rfl, ht⟩
   | cons op ops ih =>
-    intro s h hok
-    obtain ⟨s1, h1, hi1, hc1⟩ := step_inv s op h hok.1
+    intro s h hok ht
+    obtain ⟨s1, h1, hi1, hc1, ht1⟩ := step_inv s op h hok.1 ht
     have hok2 := hok.2
     rw [← hc1] at hok2
-    obtain ⟨s2, h2, hi2, hc2⟩ := ih s1 hi1 hok2
-    exact ⟨s2, by simp only [run, h1, h2], hi2, by rw [hc2, hc1]; rfl⟩
+    obtain ⟨s2, h2, hi2, hc2, ht2⟩ := ih s1 hi1 hok2 ht1
+    exact ⟨s2, by simp only [run, h1, h2], hi2, by rw [hc2, hc1]; rfl, ht2⟩
 
 theorem journalOk_mid (j : Nat → Option (List Entry)) (xs : List Block) (b : Block) (rest : List Block)
     (h : JournalOk j (xs ++ b :: rest)) :
